@@ -2191,7 +2191,9 @@ pub(crate) fn solve(
     // TODO(ed): We assume the first global start we find is the start-function.
     // We check that there's a "start" in the main file in `name_resolution`.
     // I hope this is good enough.
-    let start = vars.iter().find(|x| &x.name == "start" && x.is_global);
+    let start = vars
+        .iter()
+        .find(|x| &x.name == "start" && x.is_global && x.definition.file_id == 0);
     tc.solve(&statements, start)?;
     Ok(tc)
 }
